@@ -776,6 +776,8 @@ impl<C: Suite> Sim<C> {
             Inst::Dkg => {
                 let rng = self.rng(node, inst, "part1");
                 let id = self.ids[node];
+                // a scenario may give one key generation instance another threshold (concurrent runs that differ in t)
+                let t = self.scen.extra.get("dkg_t").and_then(|m| m.get(inst.to_string())).and_then(|v| v.as_u64()).map(|v| v as u16).unwrap_or(t);
                 match dkg::part1::<C, _>(id, n, t, rng) {
                     Err(e) => self.err(node, inst, "dkg::part1", format!("{e:?}")),
                     Ok((secret, pkg)) => {
